@@ -101,6 +101,7 @@ impl CombSpec {
                             Step::Never => "NEVER".into(),
                             Step::Yield(true) => "Y".into(),
                             Step::Yield(false) => "Yerr".into(),
+                            Step::WakeYield => "Ywake".into(),
                             Step::End => "End".into(),
                             Step::Panic => "PANIC".into(),
                         })
